@@ -123,10 +123,17 @@ def plan(tier, seed):
     units += [("hist+limits" if (U.resolve(s).n <= 3 and c04.sd_size(s) >= 3) else "hist", [s], d if (tier == "quick" or c04.sd_size(s) <= 3) else 1) for s in nets] + [("hist", ch, 0) for ch in U.chunks(f3, 4)] + [("hist", ch, 1 if tier != "quick" else 0) for ch in U.chunks(u2f, 3)]
     big = [("k", k) for k, n in K.items() if n.n > 4] if tier == "quick" else []
     units += [("hist", [s], 0) for s in big]
-    units.sort(key=lambda u: -u[2])
+    overlap = [("u", ("k", a), ("k", b)) for a, b in (("depth_overlap", "maa3"), ("depth_overlap", "maa_16555679"), ("depth_15986426", "maa_16555679"))]
+    # a motif-avoidant attractor next to two independent switches: sibling trap spaces that overlap and both contain it (7 variables)
+    overlap += [("u", ("u", ("idx", 3, 8974833), ("k", "bistable")), ("k", "bistable"))]
+    overlap += [("u", ("idx", 3, i), ("k", "bistable")) for i in U.shard(U.catalogue("maa"), seed, 16384 if tier == "quick" else 2048)]
+    units += [("skiphist", [s], 0) for s in overlap]
+    units.sort(key=lambda u: (u[0] != "skiphist", -u[2]))
     return {
-        "units": units, "universes": {"K + U2 (history states)": len(nets), "F3c/MULTI3/MAA3 shards (fresh state)": len(f3), "K(n>4) fresh": len(big), "API-declared networks with unsorted variable order": len(api), "U2f (free-input variants, incl. inputs that regulate nothing)": len(u2f)},
-        "bounds": {"insertion points": f"every diagram state reachable by <= {d} call(s) of the full alphabet (K, U2) or the fresh diagram",
+        "units": units, "universes": {"K + U2 (history states)": len(nets), "overlapping skip nodes x motif-avoidant attractor (skip-completed states)": len(overlap), "F3c/MULTI3/MAA3 shards (fresh state)": len(f3), "K(n>4) fresh": len(big), "API-declared networks with unsorted variable order": len(api), "U2f (free-input variants, incl. inputs that regulate nothing)": len(u2f)},
+        "bounds": {"insertion points": f"every diagram state reachable by <= {d} call(s) of the full alphabet (K, U2) or the fresh diagram; for the "
+                                       "overlap x MAA unions: every state [bfs|attractor-seed expansion with size limit in {2, 3, half, two thirds}] . skip_remaining . "
+                                       "[seeds of one non-minimal node], continued by seeds of each skip node and the closing sequence",
                    "inserted": "pickle round trip | reclaim_node_data",
                    "continuation": "each operation of a representative alphabet (queries on every node, succ/skip per node, bfs, dfs, "
                                    "minimal+skip, attractor-seed, block (2), scc (2), skip_remaining, build, target, control), then the "
@@ -140,10 +147,32 @@ def plan(tier, seed):
     }
 
 
-def explore_net(net, spec, depth, res, config=None):
+def skip_states(net, config):
+    """states for the 'skiphist' units: a partial expansion completed with skip nodes, then one node queried.
+    (The empty result of a queried node is what skip nodes later rely on; seeded change C16-w2-2.)"""
+    out = []
+    full = len(net.sd[0])
+    limits = sorted({2, 3, max(2, full // 2), max(2, (2 * full) // 3)})
+    for L in limits:
+        for p in (("bfs", None, None, L), ("aseeds", L)):
+            pre = (p, ("skiprem",))
+            sd = replay_hist(net, pre, config)
+            if not any(sd.node_data(i)["skipped"] for i in sd.node_ids()):
+                continue
+            out.append(pre)
+            for n in sd.node_ids():
+                if not sd.node_is_minimal(n):
+                    out.append(pre + (("seeds", n),))
+    return out
+
+
+def explore_net(net, spec, depth, res, config=None, skiphist=False):
     config = config or CONFIG
     vio = []
-    if depth:
+    if skiphist:
+        states = skip_states(net, config)
+        res["states"] += len(states)
+    elif depth:
         ex = Explorer(net, lambda n, s: full_ops(n, s), None, config=config, max_states=300 if depth < 2 else 120)
         states = ex.run(depth=depth)
         if ex.capped:
@@ -159,7 +188,10 @@ def explore_net(net, spec, depth, res, config=None):
         if any(base.node_data(i)["attractor_seeds"] is not None or base.node_data(i)["attractor_candidates"] is not None
                or base.node_data(i)["percolated_petri_net"] is not None or base.node_data(i)["percolated_network"] is not None for i in base.node_ids()):
             res["nontrivial"].add((repr(spec), h))
-        conts = [()] + [(op,) for op in rest_ops(net, base)]
+        if skiphist:
+            conts = [()] + [(("seeds", n),) for n in base.node_ids() if base.node_data(n)["skipped"]]
+        else:
+            conts = [()] + [(op,) for op in rest_ops(net, base)]
         for cont in conts:
             tail = list(cont) + clos
             ref_hist = list(h) + tail
@@ -192,7 +224,7 @@ def run_unit(unit):
         net = U.resolve(spec)
         try:
             with case_timeout(2400):
-                vio = explore_net(net, spec, depth, res)
+                vio = explore_net(net, spec, depth, res, skiphist=(kind == "skiphist"))
                 if kind == "hist+limits":
                     vio += explore_net(net, spec, depth, res, CONFIG_LIMITS)
         except CaseTimeout:
